@@ -288,11 +288,22 @@ def main(tier):
             sp = EncodeNumber(L, vk, rk, ok)
             sp.prop = 'C02'
             run.add(SpecTask(sp))
+    # the decode side of the round trip rests on decode_number's contract (also part of C01): checked here for every bit
+    # length a NUMBER field of an encodable definition has
+    from contracts.utils_c import DecodeNumber
+    from pyvc.tasks import with_prop
+    lens = sorted({f.L for d in encodable_defs() for f in d.fields if f.type in ('NUMBER', 'DURATION', 'TIME', 'DATE', 'PGN') and f.L})
+    for L in lens:
+        for kind, ok in (('int', 'zero'), ('float', 'zero'), ('int', 'int'), ('float', 'int')):
+            run.add(SpecTask(with_prop(DecodeNumber(L, kind, ok), 'C02')))
     for none in (False, True):
         sp = EncodeTime(none)
         run.add(SpecTask(sp))
     for ch in chunks(encodable_defs(), 48):
         run.add(EncoderRoundTripTask(ch))
+    from contracts.helpers_c import encode_helper_tasks
+    for t in encode_helper_tasks('C02'):
+        run.add(t)
     from props import C02_extra
     C02_extra.add(run, tier)
     run.trust('pyvc state-merging symbolic execution of the generated encoders; bit-field piece normal form for x |= (v & M) << o',
